@@ -110,7 +110,11 @@ def bfg_text(decls, header=''):
                      (n, n, n, ', '.join(ref_expr({'f': '', 't': x}, decls)
                                          for x in d['deps'])))
         elif k == 'test':
-            L.append("test(%s)" % d['deps'][0])
+            if len(d['deps']) == 1:
+                L.append("test(%s)" % d['deps'][0])
+            else:           # further built files as arguments of the test
+                L.append("test([%s])" % ', '.join(
+                    ref_expr({'f': '', 't': x}, decls) for x in d['deps']))
         elif k == 'default':
             L.append("default(%s)" % ', '.join(
                 ref_expr({'f': '', 't': x}, decls) for x in d['deps']))
